@@ -140,14 +140,14 @@ M["c15"] = [
  dict(id="regex-handler-dropped", file=S, expect="C15-D2a",
       old='''            try:
                 matcher = re.compile(needle)
-            except (re.error, OverflowError) as ex:
+            except (re.error, OverflowError, RecursionError) as ex:
                 raise YAMLPathException(
                     "Invalid Regular Expression, {}".format(ex),
                     str(needle)) from ex''',
       new='''            matcher = re.compile(needle)'''),
  dict(id="undo-overflow-is-a-path-error", file=S, expect="C15-D2a",
-      old="            except (re.error, OverflowError) as ex:",
-      new="            except re.error as ex:"),
+      old="            except (re.error, OverflowError, RecursionError) as ex:",
+      new="            except (re.error, RecursionError) as ex:"),
  dict(id="param-conversion-dropped", file=K, expect="C15-D1",
       old='''        try:
             parameters: List[str] = terms.parameters
